@@ -488,6 +488,9 @@ func (s *vSchema) fillAll(m *vMsg, round int, depth int) reflect.Value {
 	return v
 }
 
+// fields whose emission position had to be guessed (0 on a healthy tree)
+var vSchemaGuessed int
+
 type vPB interface {
 	Marshal() ([]byte, error)
 	Unmarshal([]byte) error
@@ -610,7 +613,23 @@ func (s *vSchema) probeOrder(m *vMsg) error {
 		}
 	}
 	if len(order) != len(m.fields) {
-		return fmt.Errorf("%s: %d fields in the tags, %d seen when marshalling a full value (%v)", m.name, len(m.fields), len(order), order)
+		// a field of the tags that a full value does not marshal (the tree is broken there): do not
+		// stop the run — place it by ascending field number (the gogo rule) so that the correspondence
+		// and the direct oracle still run and report the concrete failing input
+		for _, f := range m.fields {
+			if pos(f.num) >= 0 {
+				continue
+			}
+			at := len(order)
+			for i, x := range order {
+				if x > f.num {
+					at = i
+					break
+				}
+			}
+			order = append(order[:at], append([]int{f.num}, order[at:]...)...)
+			vSchemaGuessed++
+		}
 	}
 	sort.SliceStable(m.fields, func(i, j int) bool { return pos(m.fields[i].num) < pos(m.fields[j].num) })
 	return nil
